@@ -214,8 +214,23 @@ def run(tier: str, seed: int) -> int:
     chk.absorb(verdicts, by_id, {c["id"]: {k: v for k, v in c.items() if k != "_fresh"} for c in cases})
     nontrivial = sum(1 for c in cases if len(c["hist"]) >= 3)
     samples = [by_id[o["id"]] for o in obs[:: max(1, len(obs) // 4)]][:4]
+    # ---- the integrated layer: behaviours of spec/System.tla stepped through collections, backend and validator ----
+    chk.model_check("MC_System", "MC_System.cfg" if tier == "quick" else "MC_System_thorough.cfg")
+    neg = tlc.run_tlc("MC_System", "MC_System_negative.cfg", workers=4, check_ok=False)
+    if neg.invariant_violated != "ConvertIdeal":
+        raise tlc.MachineryError("negative control MC_System_negative.cfg: a merge that applies the first collection's filters only not refuted")
+    chk.coverage["negative_control"]["cfgs"].append("MC_System_negative.cfg (merge applies the filters of the first collection only)")
+    scases = chk.generate("Gen_System")
+    for c in scases:
+        c["id"] += SYS_BASE
+    sobs = drive("harness.props.sysmodel", "drive_case", scases, chunk=20)
+    sverdicts = chk.judge("Judge_System", sobs)
+    chk.binding_selftest("Judge_System", sobs, sverdicts, _corrupt.system)
+    chk.coverage["integrated_layer"] = {"behaviours": len(sobs), "calls": sum(len(o["ops"]) for o in sobs)}
+    chk.absorb(sverdicts, {o["id"]: {"calls": [dict(op=x["op"], k=x["k"], ds=x["ds"], collect=x["collect"]) for x in o["ops"]],
+                                     "observed_after_each_call": o["steps"]} for o in sobs}, {c["id"]: c for c in scases})
     return chk.finish(
-        evaluations=len(obs),
+        evaluations=len(obs) + len(sobs),
         distinct_nontrivial=nontrivial,
         rule="TLC (Gen_C15) enumerates every enabled history of <=2 (thorough 3) operations after creating backend A over "
         "(class pipeline: set_state, field mapping, strict mapping check; user pipeline: state-gated prefix, rule failure, "
@@ -224,14 +239,25 @@ def run(tier: str, seed: int) -> int:
         "not-equals rendering} plus seeded random walks of 3..7 operations, each followed by 5 probe rules (one/two conditions, state-setting, negated, one that names a mapping target "
         "directly and must fail the strict mapping check) on each "
         "existing backend; the reference for every probe is its conversion as the first action of a newly started "
-        "interpreter; non-trivial = history of at least 3 operations",
+        "interpreter; non-trivial = history of at least 3 operations"
+        "; plus behaviours of the integrated layer (spec/System.tla: load in every order / load unresolved and merge / "
+        "validate / convert with one backend over two collections, and seeded walks of 7 calls), each call's effect on the "
+        "objects validated against the specification's step",
         samples=samples,
-        traces=len(obs),
+        traces=len(obs) + len(sobs),
         exhaustive=False,
     )
 
 
+SYS_BASE = 50_000_000
+
+
 def replay(path: str) -> int:
+    with open(path) as f:
+        first = json.load(f)["cases"][0].get("case") or {}
+    if "ops" in first:  # a behaviour of the integrated layer
+        return _replay("C15", path, "harness.props.sysmodel", "Judge_System")
+
     def prepare(chk, cases):
         fresh = {k: fresh_result(k) for k in PROBES}
         for c in cases:
